@@ -1,0 +1,17 @@
+//go:build verif
+
+// Verification hooks (add-only, compiled only with -tags verif). They expose
+// the unexported control-file parser and the signed-digest-list checker to the
+// out-of-tree correspondence harness in /verif (property C11); no existing
+// behaviour is changed.
+package signdeb
+
+import "io"
+
+// VerifParseControl calls parseControl.
+func VerifParseControl(r io.Reader, ext string) (*PackageInfo, error) { return parseControl(r, ext) }
+
+// VerifCheckSig calls checkSig.
+func VerifCheckSig(role string, body io.Reader, digests map[string]string) error {
+	return checkSig(role, body, digests)
+}
